@@ -111,6 +111,19 @@ func genC04(e *emitter, tier string, seed int64) {
 		}
 	}
 	// object-less and non-indexable objects
+	// a subscript is evaluated once per statement, also in a compound assignment (the probe pr records
+	// every evaluation); key "c04:compound-index-evaluated-twice" is a recorded finding
+	for _, src := range []string{"a = [10, 20, 30]\na[pr(0)] += 5\np(a)\n", "m = {\"k\": 1}\nm[pr(\"k\")] *= 3\np(m)\n", "a = [[1, 2], [3, 4]]\na[pr(0)][pr(1)] -= 1\np(a)\n",
+		"a = [10, 20, 30]\na[pr(1)] = 5\np(a)\n", "a = [10, 20, 30]\nx = a[pr(2)]\np(x)\n", "a = [1, 2, 3, 4]\nx = a[pr(0):pr(3):pr(2)]\np(x)\n"} {
+		if propName != "C04" {
+			break // judged by C04's specification only
+		}
+		out := runV1(runCase{Scripts: []scriptSrc{{"main.p", src}}, Entry: "main.p", Point: pt})
+		out["gen"], out["key"], out["strict"] = "index-once", "c04:compound-index-evaluated-twice", true
+		out["once"] = strings.Count(src, "pr(")
+		e.stat("index-once")
+		e.emit(out)
+	}
 	// errors and wrongly typed values inside subscripts and bounds (through variables: literals are rejected by the parser)
 	for _, sub := range []string{"l[1 / zero:]", "l[:1 / zero]", "l[::1 / zero]", "l[:e]", "l[e:]", "l[::e]", "l[:f]", "l[f:]", "l[::f]", "l[nl:2]", "l[:nl]", "l[::nl]", "l[b:]", "l[:b]", "l[1 / zero]", "l[e]", "l[f]", "l[b]", "l[nl]",
 		"m[1 / zero]", "m[b]", "m[f]", "m[nl]", "s[e:]", "s[:f]", "s[1 / zero]", "s[0][0]", "l[0][1 / zero]", "l[p(1):p(2):1 / zero]"} {
